@@ -33,7 +33,15 @@ def pattern(src, mode):
 IGNORED_FIELDS = {"ctx", "lineno", "col_offset", "end_lineno", "end_col_offset", "type_comment", "kind"}
 
 
+def _is_ellipsis_body(p):
+    return isinstance(p, list) and len(p) == 1 and isinstance(p[0], ast.Expr) and isinstance(p[0].value, ast.Constant) and p[0].value.value is Ellipsis
+
+
 def _match(p, n, b):
+    if _is_ellipsis_body(p) and isinstance(n, list):
+        return True
+    if isinstance(p, ast.Constant) and p.value is Ellipsis and isinstance(n, ast.AST):
+        return True      # `...` in expression position matches any expression
     if isinstance(p, ast.Name):
         if p.id == "__V__":
             return isinstance(n, ast.AST)
@@ -66,6 +74,8 @@ def _match(p, n, b):
         for f in p._fields:
             if f in IGNORED_FIELDS:
                 continue
+            if f == "orelse" and isinstance(p, (ast.If, ast.For, ast.While)) and not p.orelse:
+                continue     # a pattern without else/elif says nothing about the else part
             if not _match(getattr(p, f, None), getattr(n, f, None), b):
                 return False
         return True
@@ -127,3 +137,106 @@ def has_expr(root, src, binds=None):
 
 def has_stmts(root, src, binds=None):
     return bool(find_stmts(root, src, binds))
+
+
+# ---------------------------------------------------------------------------------------------
+# automatic metavariables: in a pattern written with today's names, every bare name that is not a parameter of the function, a
+# module-level name or a builtin is a *local* of the function and is treated as a metavariable - so renaming locals cannot break a rule.
+import builtins as _bi
+
+_BUILTINS = set(dir(_bi))
+
+
+def global_names(model):
+    g = getattr(model, "_global_names", None)
+    if g is None:
+        g = set(model.classes) | set(model.module_assigns)
+        for st in model.tree.body:
+            if isinstance(st, (ast.FunctionDef, ast.ClassDef)):
+                g.add(st.name)
+            elif isinstance(st, (ast.Import, ast.ImportFrom)):
+                for a in st.names:
+                    g.add((a.asname or a.name).split(".")[0])
+            elif isinstance(st, ast.Try):
+                for x in ast.walk(st):
+                    if isinstance(x, (ast.Import, ast.ImportFrom)):
+                        for a in x.names:
+                            g.add((a.asname or a.name).split(".")[0])
+        model._global_names = g
+    return g
+
+
+def _fixed_names(model, fn):
+    fixed = set(global_names(model)) | _BUILTINS
+    n = fn
+    while n is not None:
+        if isinstance(n, (ast.FunctionDef, ast.AsyncFunctionDef, ast.Lambda)):
+            a = n.args
+            for x in a.args + a.kwonlyargs + a.posonlyargs:
+                fixed.add(x.arg)
+            if a.vararg:
+                fixed.add(a.vararg.arg)
+            if a.kwarg:
+                fixed.add(a.kwarg.arg)
+        n = model.parents.get(n)
+    return fixed
+
+
+class _Auto(ast.NodeTransformer):
+    def __init__(self, fixed):
+        self.fixed = fixed
+
+    def visit_Name(self, node):
+        if node.id in self.fixed or node.id.startswith("__V_") or node.id.startswith("__E_"):
+            return node
+        return ast.copy_location(ast.Name(id="__V_" + node.id, ctx=node.ctx), node)
+
+
+_auto_cache = {}
+
+
+def _auto_pattern(model, fn, src, mode):
+    key = (id(model), id(fn), src, mode)
+    if key not in _auto_cache:
+        tree = ast.parse(_prep(src.strip()), mode="eval" if mode == "expr" else "exec")
+        tree = _Auto(_fixed_names(model, fn)).visit(tree)
+        _auto_cache[key] = tree.body
+    return _auto_cache[key]
+
+
+def ahas(model, fn, src, root=None):
+    """Does function `fn` (or the sub-tree `root` of it) contain the construct `src`? `src` is written with today's names; locals are
+    matched as metavariables. Tries a statement-sequence pattern first, then an expression pattern."""
+    return bool(afind(model, fn, src, root))
+
+
+def afind(model, fn, src, root=None):
+    root = fn if root is None else root
+    out = []
+    try:
+        p = _auto_pattern(model, fn, src, "stmt")
+        only_expr = len(p) == 1 and isinstance(p[0], ast.Expr) and not isinstance(p[0].value, (ast.Call, ast.Constant, ast.Await, ast.Yield))
+    except SyntaxError:
+        p, only_expr = None, True
+    roots = [root] if isinstance(root, ast.AST) else list(root)
+    if p is not None and not only_expr:
+        k = len(p)
+        for r in roots:
+            for n in ast.walk(r):
+                for f in ("body", "orelse", "finalbody"):
+                    lst = getattr(n, f, None)
+                    if isinstance(lst, list) and lst and isinstance(lst[0], ast.stmt):
+                        for i in range(0, len(lst) - k + 1):
+                            b = {}
+                            if _match(p, lst[i:i + k], b):
+                                out.append((lst[i], b))
+        if out or not (len(p) == 1 and isinstance(p[0], ast.Expr)):
+            return out
+    pe = _auto_pattern(model, fn, src, "expr") if p is None else p[0].value
+    for r in roots:
+        for n in ast.walk(r):
+            if isinstance(n, ast.expr):
+                b = {}
+                if _match(pe, n, b):
+                    out.append((n, b))
+    return out
